@@ -460,7 +460,7 @@ Definition step_core (s : rt) (e : event) : option rt :=
       match p_st i with
       | PDone o' =>
           if is_exec (p_origin i) && negb (p_exec_ret i) && outcome_eqb o o'
-             && (same || (flav_eqb (p_flav i) Aio && outcome_eqb o (ORaiseExc aio_copied_exc))) then
+             && same then                            (* asyncio_runner.py:29-43: the very object, all flavours *)
             Some (set_pay s p (mkP (p_st i) (p_flav i) (p_owner i) (p_origin i) (p_tid i) (p_loop i)
                                    (p_starts i) (p_cancels i) (p_cleans i) (p_adopting i) true))
           else None
